@@ -442,16 +442,41 @@ def check_comment(d, position, pretty, v):
     return "tokens-changed", obs
 
 
-BUILDER_VARIANTS = ("plain", "pretty-identify")
+BUILDER_VARIANTS = ("plain", "pretty-identify", "hosts", "hosts-pretty")
 
 
 def _build(v):
     return sqlglot.select(exp.Literal.string(v)).from_("t").where(exp.column("c").eq(v))
 
 
+def _build_hosts(v):
+    """the literal below nodes whose generator methods lay out the literal's text themselves (INTERVAL, CAST, LIKE, a call)"""
+    lit = lambda: exp.Literal.string(v)
+    return sqlglot.select(
+        exp.alias_(exp.Interval(this=lit(), unit=exp.var("DAY")), "i"),
+        exp.alias_(exp.cast(lit(), "date"), "d"),
+        exp.alias_(exp.column("c").like(lit()), "l"),
+        exp.alias_(exp.func("f", lit(), exp.Interval(this=lit(), unit=exp.var("HOUR"))), "f"),
+        exp.column("z_end"),
+    ).from_("t")
+
+
 def gen_builder(d, variant, v):
+    if variant.startswith("hosts"):
+        return _build_hosts(v).sql(dialect=d or None, pretty=variant == "hosts-pretty")
     opts = {"pretty": True, "identify": True} if variant == "pretty-identify" else {}
     return _build(v).sql(dialect=d or None, **opts)
+
+
+def _hosts_observe(d, variant, v):
+    """-> ('ok', (sql, [(type, text) of every token that is not a string token])) | (how, obs)"""
+    sql, e = _guard(gen_builder, d, variant, v)
+    if e is not None:
+        return _exc("generate-", e), _err(None, e)
+    toks, e = _guard(_toks, _dialect(d), sql)
+    if e is not None:
+        return _tok_how(e), _err(sql, e)
+    return "ok", (sql, [(tt, tx) for tt, tx in toks if tt not in _STRINGISH])
 
 
 def _builder_observe(d, variant, v):
@@ -477,6 +502,9 @@ def builder_baseline(d, variant):
     """node-type sequence of the benign instance v='a', or None if the dialect cannot read back its own output for
     this statement shape (then contract (d) is not applicable to the dialect)."""
     k = (d, variant)
+    if k not in _BUILDER_BASE and variant.startswith("hosts"):
+        r = _hosts_observe(d, variant, "a")
+        _BUILDER_BASE[k] = r[1][1] if r[0] == "ok" else None
     if k not in _BUILDER_BASE:
         r = _builder_observe(d, variant, "a")
         _BUILDER_BASE[k] = r[1][2] if r[0] == "ok" and r[1][1] == ["a", "a"] else None
@@ -486,6 +514,17 @@ def builder_baseline(d, variant):
 def check_builder(d, variant, v):
     base = builder_baseline(d, variant)
     if base is None:
+        return None
+    if variant.startswith("hosts"):
+        if v == "":
+            return None  # an empty INTERVAL value is legitimately printed without its string (INTERVAL DAY): not an escape
+        # the tokens around the literals are those of the benign instance: no value became SQL
+        r = _hosts_observe(d, variant, v)
+        if r[0] != "ok":
+            return r
+        sql, toks = r[1]
+        if toks != base:
+            return "surrounding-tokens-changed", {"sql": sql, "tokens": toks[:12]}
         return None
     r = _builder_observe(d, variant, v)
     if r[0] != "ok":
@@ -819,7 +858,7 @@ def _do_builder(acc, d, v, mode):
         r = check_builder(d, bv, v)
         if r is None:
             continue
-        pretty = bv == "pretty-identify"
+        pretty = bv in ("pretty-identify", "hosts-pretty")
         root = check_string_tokens(d, "plain", v, pretty)
         if root is None and string_parse_applicable(d, "plain"):
             root = check_string_parse(d, "plain", v, pretty)
